@@ -144,6 +144,7 @@ fn poll_is_woken_by_the_event<const WHEN: usize>() {
 }
 
 //@ obligation: C16.1.0
+//@ tier: thorough
 //@ kind: K3
 //@ complete: yes
 //@ functions: Cqueue::poll, EventSender::subscribe, Event::continue_bottom
@@ -228,6 +229,7 @@ fn c16_1a_poll_is_woken_by_the_event_3() {
 }
 
 //@ obligation: C16.1.4
+//@ tier: thorough
 //@ kind: K3
 //@ complete: yes
 //@ functions: Cqueue::poll, EventSender::subscribe, Event::continue_bottom
@@ -274,6 +276,7 @@ fn poll_sees_the_last_selector_end<const WHEN: usize>() {
 }
 
 //@ obligation: C16.1b.0
+//@ tier: thorough
 //@ kind: K3
 //@ complete: yes
 //@ functions: Cqueue::poll, EventSender::drop
@@ -316,6 +319,7 @@ fn c16_1b_poll_sees_the_last_selector_end_1() {
 }
 
 //@ obligation: C16.1b.2
+//@ tier: thorough
 //@ mem: 30
 //@ timeout: 900
 //@ kind: K3
@@ -360,6 +364,7 @@ fn c16_1b_poll_sees_the_last_selector_end_3() {
 }
 
 //@ obligation: C16.1b.4
+//@ tier: thorough
 //@ kind: K3
 //@ complete: yes
 //@ functions: Cqueue::poll, EventSender::drop
